@@ -15,5 +15,6 @@ func checkC02(p *Prog, r *Report) {
 		return false
 	})
 	wireAnte(p, r, "C02")
+	checkSignBytesBindMessage(p, r, "C02", "x/aol")
 	checkInitGenesisCallers(p, r, "C02", "x/aol")
 }
